@@ -378,6 +378,18 @@ def run(ctx):
             # follow a shared private helper: unresolved() = helper(false)
             hops = 0
             args = {}
+            # (the helper may hand back the iterator itself: `helper(flag).cloned().collect()` — the wrappers are put back around
+            # what the helper returns)
+            wrappers = []
+            if e is not None and e[0] == 'call' and e[1] not in P.fns:
+                inner_ = e
+                while inner_[0] == 'call' and inner_[2] and re.search(r'Iterator::(collect|cloned|copied)$', inner_[3] if len(inner_) > 3 else inner_[1]):
+                    wrappers.append(inner_)
+                    inner_ = strip(inner_[2][0])
+                if wrappers and inner_[0] == 'call' and inner_[1] in P.fns:
+                    e = inner_
+                else:
+                    wrappers = []
             while e is not None and e[0] == 'call' and e[1] in P.fns and hops < 2:
                 g = P.fns[e[1]]
                 args = {i + 1: (bool(strip(a)[1]) if strip(a)[0] == 'int' else (strip(a) if strip(a)[0] in ('closure', 'fnref') else None)) for i, a in enumerate(e[2])}
@@ -385,6 +397,9 @@ def run(ctx):
                 f = g
                 e = strip(expand(g, g.exits()[0]['expr'])) if len(g.exits()) == 1 else None
                 hops += 1
+            if wrappers and e is not None:
+                for w_ in reversed(wrappers):
+                    e = (w_[0], w_[1], [e] + list(w_[2][1:])) + tuple(w_[3:])
             e_raw = strip(f.exits()[0]['expr']) if len(f.exits()) == 1 else None
             lbv = loop_built(f, e_raw[1]) if (e_raw is not None and e_raw[0] == 'var') else None
             if lbv and len(lbv.get('pushes', [lbv['push']])) == 1:
